@@ -37,7 +37,9 @@ META = {
                      'CPython ast'],
     'assumptions': ['the body codec is covered by C01/C02'],
     'decided': ['D1 header-field tables', 'D2 header-field typing',
-                'D3 writer/reader slot coverage (flags, serial, fields)',
+                'D3 writer/reader slot coverage (flags for every value of the '
+                'flags byte, serial, fields; an unknown field code skips that '
+                'field only)',
                 'D4 layout', 'D5 serial allocation', 'D6 size limit',
                 'D7 constructor validation'],
     'undecided': ['equality of parsed and built messages for arbitrary '
@@ -500,6 +502,7 @@ def reader_rules(ctx, classes):
         raise AnalysisError('parseMessage has no return path')
     raw = ('param', fi.params()[0])
     q = fi.qualname
+    covered = {}
     for p in paths:
         hcalls = [c for c in p.calls(deep=False)
                   if c[1] == 'marshal.unmarshal' and c[3] and
@@ -540,9 +543,21 @@ def reader_rules(ctx, classes):
             detail = None
             if v is not None:
                 ok = True
+                from ..sym import truth
                 for fl in range(4):
-                    r = subst_fold(v, {('sub', hval, C(2)): C(fl)})
-                    from ..sym import truth
+                    env = {('sub', hval, C(2)): C(fl)}
+                    # a path that tests the flags byte is only taken for
+                    # the flag values its condition admits
+                    feasible = True
+                    for c, pol in p.cond:
+                        if contains(c, lambda x: x == ('sub', hval, C(2))):
+                            tc = truth(subst_fold(c, env))
+                            if tc is not None and tc != pol:
+                                feasible = False
+                    if not feasible:
+                        continue
+                    covered.setdefault(attr, set()).add(fl)
+                    r = subst_fold(v, env)
                     tv = truth(r)
                     if tv is None or tv != (not (fl & bit)):
                         ok = False
@@ -596,6 +611,11 @@ def reader_rules(ctx, classes):
             ctx.ob('C03.D4', q, 'body-decoded-under-signature', okc,
                    'the body must be decoded from rawBody under the parsed '
                    'signature with the parsed byte order')
+    for attr, fls in sorted(covered.items()):
+        ctx.ob('C03.D3', q, 'restores-flag:%s:all-values' % attr,
+               fls == set(range(4)),
+               'some value of the flags byte (%s) reaches no return path of '
+               'parseMessage' % sorted(set(range(4)) - fls))
     # an unknown field code is skipped for THAT field only (readers must
     # ignore codes they do not know; the fields after it still count)
     itx = Interp(prog, exc_edges=True)
